@@ -207,7 +207,7 @@ static void run_script(const Plan &p, const Script &sc, Result &res) {
                     i, op.kind.c_str(), got.iters, got.resid, got.exc.c_str(), want.iters, want.resid, want.exc.c_str(), d)));
         }
         // invariants of single calls (checked on the fresh object's result so that they hold regardless of history)
-        if (k == O_SOLVE_ZERO_RHS && want.exc.empty()) {
+        if (k == O_SOLVE_ZERO_RHS && want.exc.empty() && p.get("solver") != 8) {     // preonly is not an iterative method: it returns P*rhs whatever P is
             bool allzero = true; for (size_t q = 0; q < want.x.size(); ++q) if (want.x[q] != 0) allzero = false;
             if (!allzero || want.iters != 0) res.fail(sig("zero-rhs-gives-zero", "zero-rhs", op.kind, fmt("iters=%.0f, x %s zero", want.iters, allzero ? "is" : "is not")));
         }
